@@ -37,7 +37,7 @@ def plan(tier, seed):
 
 def conclude(agg):
     c = agg['counters']
-    r = [f'monitor counter {k} is zero' for k in ('callbacks_m2', 'callbacks_m4', 'callbacks_m8', 'injections', 'downstream_lines_changed', 'upstream_lines_checked')
+    r = [f'monitor counter {k} is zero' for k in ('callbacks_m2', 'callbacks_m4', 'callbacks_m8', 'cycle_callbacks', 'injections', 'downstream_lines_changed', 'upstream_lines_checked')
          if c.get(k, 0) == 0]
     return r
 
@@ -139,6 +139,17 @@ def check_case(case, ctx):
                               f'but the freshly computed value is {val[li] if m == 2 else R.CHARS[val[li][0]]}; {G.net_text(net)[:300]}', case)
                 return
         base_s1 = sim.s[1].copy()
+        # cycle() hands the callback to every propagation: k cycles -> k x (evaluated signals) invocations, in the same order
+        if net['ffs'] and case['vseed'] % 3 == 0:
+            kcyc = 1 + case['vseed'] % 3
+            simc = LogicSim(b.c, sims=n, m=m, c_reuse=case['c_reuse'], strip_forks=strip)
+            load(simc, b, assign, m, n)
+            seen = []
+            simc.cycle(kcyc, inject_cb=lambda line, values: seen.append(operator.index(line)))
+            ctx.count('cycle_callbacks', len(seen))
+            if seen != ids * kcyc:
+                ctx.violation('callback-exactly-once', f'm={m}: cycle({kcyc}, inject_cb) invoked the callback {len(seen)} times, expected {kcyc} x {len(ids)} in evaluation order', case)
+                return
 
         # ---- monitor 2: injection ------------------------------------------------------------------
         rr = random.Random(case['vseed'] ^ 0xC16)
